@@ -21,12 +21,17 @@ SHARDS = 16
 def design_checks(tier):
     # KernMC: writer core vs UFO precedence; KernSplitMC: script / direction split, bucket merging, bidi filter and
     # registration vs the same reference -- `C05 \/ Known_C05_1` must hold, the strict config must fail (the signature is real)
+    # KernDirMC: the same for the direction-split writer (kernFeatureWriter2): no class pair is lost there (`C05_Dir` holds
+    # without any known-finding signature); for mixed pairs the strict config must fail (F-C05-3 is real)
     if tier == "quick":
         return [dict(module="KernMC", cfg="KernMC_quick.cfg", workers=16, timeout=900),
-                dict(module="KernSplitMC", cfg="KernSplitMC_strict.cfg", workers=8, timeout=300, expect_violation="C05_Strict")]
+                dict(module="KernSplitMC", cfg="KernSplitMC_strict.cfg", workers=8, timeout=300, expect_violation="C05_Strict"),
+                dict(module="KernDirMC", cfg="KernDirMC_strict.cfg", workers=8, timeout=300, expect_violation="C05_DirMixed_Strict")]
     return [dict(module="KernMC", cfg="KernMC.cfg", workers=16, timeout=3000),
             dict(module="KernSplitMC", cfg="KernSplitMC_quick.cfg", workers=16, timeout=3000),
-            dict(module="KernSplitMC", cfg="KernSplitMC_strict.cfg", workers=8, timeout=300, expect_violation="C05_Strict")]
+            dict(module="KernSplitMC", cfg="KernSplitMC_strict.cfg", workers=8, timeout=300, expect_violation="C05_Strict"),
+            dict(module="KernDirMC", cfg="KernDirMC_quick.cfg", workers=16, timeout=3000),
+            dict(module="KernDirMC", cfg="KernDirMC_strict.cfg", workers=8, timeout=300, expect_violation="C05_DirMixed_Strict")]
 
 
 def cases(tier, seed):
